@@ -72,8 +72,13 @@ def r1(ctx, chk):
     chk.ob(rule, "microsecond = %d*group2 + group3" % 10 ** w3, ok, "linear form %s" % lin,
            key={"construct": "microsecond scale"}, file=f.file, function=f.qual, line=f.node.lineno, text=ast.unparse(ms))
     # the match is taken on the string handed in, choosing the regex by `negative`
-    t = " ".join(ast.unparse(f.node).split())
-    ok = "if negative: match = RE_SEARCH_NEGATIVE_TIMESTAMP.search(date_string) else: match = RE_SEARCH_TIMESTAMP.search(date_string)" in t
+    ok = False
+    for n in iter_own_nodes(f.node):
+        if isinstance(n, ast.If) and isinstance(n.test, ast.Name) and n.test.id == "negative" and n.body and n.orelse:
+            b = ast.unparse(n.body[0].value) if isinstance(n.body[0], ast.Assign) else ""
+            o = ast.unparse(n.orelse[0].value) if isinstance(n.orelse[0], ast.Assign) else ""
+            ok = b.startswith("RE_SEARCH_NEGATIVE_TIMESTAMP.search(") and o.startswith("RE_SEARCH_TIMESTAMP.search(") \
+                and ast.unparse(n.body[0].targets[0]) == ast.unparse(n.orelse[0].targets[0])
     chk.ob(rule, "the negative regex is used only when negative=True", ok, "", key={"construct": "regex choice"}, file=f.file,
            function=f.qual, line=f.node.lineno)
     D = ix.cls("dateparser.date:_DateLocaleParser")
@@ -189,8 +194,17 @@ def r5(ctx, chk):
     chk.ob(rule, "the ISO 'T' separator is a default skip token", "t" in dset.get("SKIP_TOKENS", []), "SKIP_TOKENS default %s" % dset.get("SKIP_TOKENS"),
            key={"construct": "SKIP_TOKENS t"}, file="dateparser_data/settings.py", function="settings", line=None)
     init = ix.func("dateparser.parser:_parser.__init__")
-    sk = [n.value for n in iter_own_nodes(init.node) if isinstance(n, ast.Assign) and ast.unparse(n.targets[0]) == "skip_tokens"]
-    ok = bool(sk) and "t" in ast.literal_eval(sk[0])
+    ok = False
+    for n in iter_own_nodes(init.node):
+        if isinstance(n, ast.Assign) and isinstance(n.targets[0], ast.Name) and isinstance(n.value, (ast.List, ast.Tuple, ast.Set)):
+            try:
+                vals = list(ast.literal_eval(n.value))
+            except Exception:
+                continue
+            nm = n.targets[0].id
+            if "t" in vals and any(isinstance(c, ast.Compare) and isinstance(c.ops[0], ast.In) and ast.unparse(c.comparators[0]) == nm
+                                   for c in iter_own_nodes(init.node)):
+                ok = True
     chk.ob(rule, "the absolute parser ignores a bare 't' token", ok, "", key={"construct": "parser skip t"}, file=init.file, function=init.qual, line=init.node.lineno)
     # default parsers try timestamp first, then relative, custom formats, absolute
     dp = module_literal(ctx.repo, "dateparser_data/settings.py", "default_parsers")
